@@ -4,6 +4,8 @@ The real ``StreamTransport.connect/read/write/disconnect`` (reached through thre
 subclass, ``TCPTransport`` and ``SerialTransport`` with their ``open_*connection`` functions replaced by
 fakes) run on a real ``asyncio.StreamReader(limit=L)`` that the harness feeds chunk by chunk, and on a
 recording writer with scripted faults.  A case is a list of operations in the driver's line protocol.
+Two further groups: several calls in flight on one connection (`run_concurrent`), and connection attempts that
+take (virtual) time before they succeed, fail or are given up by the caller (`run_slow_connect`).
 """
 
 from __future__ import annotations
@@ -11,6 +13,7 @@ from __future__ import annotations
 import asyncio
 import hashlib
 import socket
+import ssl
 
 from .. import lib
 from ..lib import Corr, enc
@@ -101,11 +104,14 @@ class Opening:
     last_kwargs: dict | None = None
     last_pair = None
     make_writer = None      # reader -> writer; None = a plain FakeWriter
+    script = None           # a SlowOpen: every attempt to open takes (virtual) time; None = answers at once
 
 
 
 async def fake_open(**kwargs):
     Opening.last_kwargs = kwargs
+    if Opening.script is not None:
+        return await Opening.script.attempt(kwargs)
     if Opening.fault is not None:
         exc, Opening.fault = Opening.fault, None
         raise exc
@@ -712,6 +718,325 @@ def concurrent_cases(rng, tier: str) -> list[tuple[list[tuple], int, dict]]:
     return out
 
 
+# ---- connection attempts that take time ---------------------------------------------------------
+#
+# C17: "a failed connection attempt ... surfaces as a transport error", for all fault positions including
+# connect.  The cases above fail (or succeed) the attempt at once; a real peer may also not answer for a long
+# time (SYNs dropped, a full accept queue, a serial server that stalls) before the attempt succeeds or fails,
+# and the caller may give up meanwhile.  A slow-connect case runs connect() of a fresh transport on an event
+# loop whose clock is virtual, with the open function (asyncio.open_connection / open_serial_connection / the
+# direct subclass's) replaced by `SlowOpen`: EVERY attempt to open stays pending for `delay` seconds (None =
+# for ever), then returns a (reader, writer) pair or raises `outcome`; the caller's task may be cancelled at
+# `cancel_at`.  Nothing here knows whether or how the transport bounds the attempt itself.
+
+try:                                   # the loop of the C16 engine, if that module can be imported against this tree
+    from .lifecycle import VirtualTimeLoop
+except Exception:  # noqa: BLE001      # pragma: no cover
+    import heapq
+
+    class VirtualTimeLoop(asyncio.SelectorEventLoop):
+        """An event loop whose clock is virtual: whenever nothing is ready to run, time jumps to the next timer."""
+
+        def __init__(self) -> None:
+            super().__init__()
+            self._vnow = 0.0
+
+        def time(self) -> float:
+            return self._vnow
+
+        def _run_once(self) -> None:
+            if not self._ready:
+                while self._scheduled and self._scheduled[0]._cancelled:      # noqa: SLF001
+                    handle = heapq.heappop(self._scheduled)
+                    handle._scheduled = False                                  # noqa: SLF001
+                    self._timer_cancelled_count = max(0, self._timer_cancelled_count - 1)
+                if self._scheduled and self._scheduled[0]._when > self._vnow:  # noqa: SLF001
+                    self._vnow = self._scheduled[0]._when                      # noqa: SLF001
+            super()._run_once()
+
+
+# every class of the OSError family that an open function can raise: the builtin subclasses, the resolver's, the
+# TLS layer's, pyserial's; and the two classes outside the family of the cases above
+CONNECT_FAULTS = {
+    **FAULTS,
+    "BlockingIOError": BlockingIOError, "ChildProcessError": ChildProcessError, "ConnectionError": ConnectionError,
+    "ConnectionAbortedError": ConnectionAbortedError, "FileExistsError": FileExistsError,
+    "InterruptedError": InterruptedError, "IsADirectoryError": IsADirectoryError,
+    "NotADirectoryError": NotADirectoryError, "PermissionError": PermissionError,
+    "ProcessLookupError": ProcessLookupError, "herror": socket.herror, "SSLError": ssl.SSLError,
+    "SerialTimeoutException": serial.SerialTimeoutException,
+}
+CONNECT_IO = [k for k, v in CONNECT_FAULTS.items() if issubclass(v, OSError)]
+CONNECT_OTHER = [k for k, v in CONNECT_FAULTS.items() if not issubclass(v, OSError)]
+
+HORIZON = 4.0 * 10 ** 6      # virtual seconds the harness waits for a connect() before it calls it pending
+LOOP_AGE = 4.0 * 10 ** 6     # a loop's clock is a float compared at a resolution of 1e-9 s: beyond 2**24 s timers would
+#                              no longer fire, so a loop that is older than this is replaced by a fresh one
+SLOW_DELAYS = [0, 0.001, 0.5, 1, 2, 3, 5, 9.999, 10, 10.001, 15, 20, 29.999, 30, 30.001, 45, 60, 75, 90, 119, 120,
+               127, 130, 300, 600, 900, 3600, 86400, None]
+S_TEXT = "1;2;1;0;0;5\n"
+S_FEED = b"ok\n\xff\n"
+
+
+class SlowOpen:
+    """What every attempt to open the connection does in one slow-connect case."""
+
+    def __init__(self, delay, outcome, limit: int, log) -> None:
+        self.delay, self.outcome, self.limit, self.log = delay, outcome, limit, log
+        self.started = 0
+        self.pending = 0
+        self.ended: list[str] = []           # "opened" | "raised" | "cancelled", one per attempt that ended
+        self.pairs: list[tuple] = []
+
+    def describe(self) -> str:
+        how = "opens the connection" if self.outcome is None else f"raises {self.outcome}"
+        if self.delay is None:
+            return "never answers"
+        return f"{how} after {self.delay:g} s" if self.delay else f"{how} at the next turn of the event loop"
+
+    async def attempt(self, kwargs: dict):
+        self.started += 1
+        n = self.started
+        self.pending += 1
+        self.log(f"open attempt #{n} ({', '.join(f'{k}={v!r}' for k, v in kwargs.items())}) starts; it {self.describe()}")
+        try:
+            if self.delay is None:
+                await asyncio.get_running_loop().create_future()
+            else:
+                await asyncio.sleep(self.delay)
+        except asyncio.CancelledError:
+            self.ended.append("cancelled")
+            self.log(f"open attempt #{n} is cancelled while pending")
+            raise
+        finally:
+            self.pending -= 1
+        if self.outcome is not None:
+            self.ended.append("raised")
+            self.log(f"open attempt #{n} raises {self.outcome}")
+            raise CONNECT_FAULTS[self.outcome]("injected")
+        pair = (asyncio.StreamReader(limit=self.limit), FakeWriter())
+        self.pairs.append(pair)
+        Opening.last_pair = pair
+        self.ended.append("opened")
+        self.log(f"open attempt #{n} returns a connection")
+        return pair
+
+
+def outcome_of(task: asyncio.Task) -> tuple[str, str]:
+    """(observation in the model's words, the class as raised) of a finished connect()/read()/write() task."""
+    if task.cancelled():
+        return "foreign CancelledError", "asyncio.CancelledError"
+    e = task.exception()
+    if e is None:
+        r = task.result()
+        if type(r) is str:
+            return "line " + enc(r), ""
+        return ("ok" if r is None else f"returned {type(r).__name__}"), ""
+    return classify(e), f"{type(e).__module__}.{type(e).__qualname__}"
+
+
+async def run_slow_connect(corr: Corr, case: dict, info: dict) -> tuple[list[str], list[str], list[str]]:
+    """One slow-connect case on the real transport, judged by the property.  Returns (the case as operations of
+    the model's driver, the observations, the history)."""
+    loop = asyncio.get_running_loop()
+    flavour, delay, outcome, cancel_at, limit = (case[k] for k in ("flavour", "delay", "outcome", "cancel_at", "limit"))
+    t0 = loop.time()
+    history: list[str] = []
+
+    def log(text: str) -> None:
+        history.append(f"t={round(loop.time() - t0, 3):g}: {text}")
+
+    def bad(what: str, **kw) -> None:
+        corr.violate(what, {**info, "flavour": ["direct", "tcp", "serial"][flavour], "open_function": opening,
+                            "caller_cancels_at": cancel_at, "connect_history": list(history), **kw})
+
+    async def finish(coro, seconds: float = 1.0) -> tuple[str, str]:
+        """Run a call that has nothing to wait for; it may use (virtual) time, but not without end."""
+        task = asyncio.ensure_future(coro)
+        await asyncio.wait({task}, timeout=seconds)
+        if not task.done():
+            task.cancel()
+            await asyncio.wait({task})
+            return "hang", ""
+        return outcome_of(task)
+
+    script = SlowOpen(delay, outcome, limit, log)
+    opening = "every attempt " + script.describe()
+    Opening.script, Opening.last_kwargs, Opening.last_pair = script, None, None
+    lines, obs = ["tnew"], ["ok"]
+    try:
+        t, expected_kwargs = make_transport(flavour)
+        log(f"{type(t).__name__}.connect() is called")
+        task = loop.create_task(t.connect())
+        cancelled_by_caller = False
+
+        def caller_cancels() -> None:
+            nonlocal cancelled_by_caller
+            if not task.done():
+                log("the caller's task is cancelled")
+                cancelled_by_caller = task.cancel() or cancelled_by_caller
+
+        handle = None
+        if cancel_at is not None:
+            if cancel_at == 0:
+                caller_cancels()                   # before connect() got to run at all
+            else:
+                handle = loop.call_later(cancel_at, caller_cancels)
+        await asyncio.wait({task}, timeout=HORIZON)
+        if handle is not None:
+            handle.cancel()
+        gave_up = not task.done()
+        if gave_up:
+            log(f"connect() is still pending ({script.pending} open attempt(s) pending)")
+            if script.pending == 0:
+                bad("connect neither returned nor raised although no attempt to open the connection is pending any more")
+            caller_cancels()
+            await asyncio.wait({task}, timeout=HORIZON)
+            if not task.done():
+                bad("connect neither returned nor raised although its caller was cancelled")
+                return lines, obs, history
+        o, raised = outcome_of(task)
+        log(f"connect() {'returns' if o == 'ok' else 'raises ' + raised if raised else o}")
+        fault_name = "CancelledError" if cancelled_by_caller else (vocab_name(CONNECT_FAULTS[outcome]) if outcome else "-")
+        lines.append(f"conn {limit} {fault_name}")
+        obs.append(o)
+        # ---- the oracle for connect (C17 restated; the delays and the bound of the harness are not part of it)
+        allowed_foreign = set()
+        if cancelled_by_caller:
+            allowed_foreign.add("foreign CancelledError")
+        if outcome in CONNECT_OTHER and "raised" in script.ended:
+            allowed_foreign.add("foreign " + vocab_name(CONNECT_FAULTS[outcome]))
+        if Opening.last_kwargs is not None and Opening.last_kwargs != expected_kwargs:
+            bad("_open_connection did not pass the configured address through",
+                got=repr(Opening.last_kwargs), want=repr(expected_kwargs))
+        if not (o == "ok" or is_transport_error(o) or o in allowed_foreign):
+            bad("a connection attempt that did not succeed surfaced as something that is not a transport error",
+                got=o, raised=raised)
+        elif cancelled_by_caller and o != "foreign CancelledError":
+            bad("connect was cancelled by its caller while pending and did not propagate the cancellation", got=o)
+        elif o == "ok" and not script.pairs:
+            bad("connect returned normally although no attempt to open the connection succeeded", got=o)
+        elif o == "ok" and (t.reader is not script.pairs[-1][0] or t.writer is not script.pairs[-1][1]):
+            bad("connect did not install the opened reader/writer")
+        elif is_transport_error(o) and "opened" in script.ended and not cancelled_by_caller:
+            bad("connect failed although the connection was opened", got=o)
+        connected = o == "ok" and bool(script.pairs)
+
+        async def use_connection(full: bool) -> None:
+            reader, w = script.pairs[-1]
+            reader.feed_data(S_FEED)
+            lines.append("feed " + hexb(S_FEED))
+            obs.append("ok")
+            for want in ("line " + enc("ok\n"), "err"):
+                r, _ = await finish(t.read())
+                lines.append("read")
+                obs.append(r)
+                if not (r == want if want != "err" else is_transport_error(r)):
+                    bad("read on the connection just opened did not return the next line of the stream", got=r, want=want)
+                if not full:
+                    break
+            r, _ = await finish(t.write(S_TEXT))
+            lines.append(f"write {enc(S_TEXT)} -")
+            obs.append(r)
+            if r != "ok" or bytes(w.data) != S_TEXT.encode():
+                bad("write on the connection just opened did not put exactly the line's bytes on the stream",
+                    got=r, stream=bytes(w.data).hex())
+            r, _ = await finish(t.disconnect())
+            lines.append("disc -")
+            obs.append(r)
+            if r != "ok" or not w.closed:
+                bad("disconnect of the connection just opened did not return normally with the writer closed", got=r)
+            lines.append("out")
+            obs.append(f"out {hexb(bytes(w.data))} closed={1 if w.closed else 0}")
+
+        if connected:
+            await use_connection(full=True)
+            return lines, obs, history
+        # the attempt did not succeed on a transport that was never connected: using it raises transport errors,
+        # disconnecting is harmless, and a new attempt that the peer answers promptly succeeds
+        for what, coro, line in (("read", t.read(), "read"), ("write", t.write("x"), "write 78 -")):
+            r, _ = await finish(coro)
+            lines.append(line)
+            obs.append(r)
+            if not is_transport_error(r):
+                bad(f"{what} on a transport whose connection attempt did not succeed did not raise a transport error", got=r)
+        r, _ = await finish(t.disconnect())
+        lines.append("disc -")
+        obs.append(r)
+        if r != "ok":
+            bad("disconnect of a transport whose connection attempt did not succeed did not return normally", got=r)
+        lines.append("out")
+        obs.append("noconn")
+        if script.pairs:                     # a connection was opened behind a connect() that did not return: not the model's
+            return lines, obs, history
+        script.delay, script.outcome = 0.5, None
+        log("the peer is reachable now; connect() is called again")
+        r, raised = await finish(t.connect(), HORIZON)
+        log(f"connect() {'returns' if r == 'ok' else 'raises ' + raised if raised else r}")
+        lines.append(f"conn {limit} -")
+        obs.append(r)
+        if r != "ok" or not script.pairs:
+            bad("a new connection attempt that the peer answers within half a second did not succeed", got=r, raised=raised)
+        elif t.reader is not script.pairs[-1][0] or t.writer is not script.pairs[-1][1]:
+            bad("connect did not install the opened reader/writer")
+        else:
+            await use_connection(full=False)
+        return lines, obs, history
+    finally:
+        Opening.script = None
+
+
+def slow_connect_cases(rng, tier: str) -> list[tuple[dict, dict]]:
+    """(case, info).  (A) every delay of SLOW_DELAYS x every flavour x {success, OSError-family classes (all of them
+    in the thorough tier, four rotating ones in the quick tier)}; (B) every class x every flavour x three delays;
+    (C) the caller cancelled before connect() runs, half-way and just before the answer (never answering peer:
+    after 1 s, 100 s, 10**6 s); (D) random delays (log-uniform over nine decades), outcomes and cancellation points."""
+    out: list[tuple[dict, dict]] = []
+    k = 0
+
+    def add(source, flavour, delay, outcome, cancel_at=None):
+        out.append(({"flavour": flavour, "delay": delay, "outcome": outcome, "cancel_at": cancel_at,
+                     "limit": 8 if len(out) % 2 else 64}, {"source": "slow-connect:" + source}))
+
+    faults = [*CONNECT_IO, *CONNECT_OTHER]
+    for delay in SLOW_DELAYS:
+        for flavour in range(3):
+            add("grid", flavour, delay, None)
+            if delay is None:
+                continue
+            if tier == "quick":
+                for _ in range(4):
+                    add("grid", flavour, delay, faults[k % len(faults)])
+                    k += 1
+            else:
+                for f in faults:
+                    add("grid", flavour, delay, f)
+    for f in faults:
+        for flavour in range(3):
+            for delay in (0, 45, 3600):
+                add("classes", flavour, delay, f)
+    for delay in SLOW_DELAYS:
+        if delay == 0:
+            continue
+        points = (0, 1, 100, 10 ** 6) if delay is None else (0, delay / 2, delay - delay / 64)
+        for flavour in range(3):
+            for c in points:
+                add("cancel", flavour, delay, None, c)
+                if delay is not None:
+                    add("cancel", flavour, delay, faults[k % len(faults)], c)
+                    k += 1
+    for _ in range(300 if tier == "quick" else 4000):
+        delay = None if rng.random() < 0.1 else round(10 ** rng.uniform(-3, 6), 3)      # at most 10**6 < HORIZON
+        outcome = None if rng.random() < 0.45 or delay is None else rng.choice(faults)
+        cancel_at = None
+        if rng.random() < 0.35:
+            cancel_at = round(rng.uniform(0, 1) * (delay if delay is not None else 10 ** rng.uniform(-3, 6)), 4)
+            if delay is not None and cancel_at >= delay:
+                cancel_at = None
+        add("random", rng.randrange(3), delay, outcome, cancel_at)
+    return out
+
+
 def model_line(op: tuple) -> str:
     kind = op[0]
     if kind == "tnew":
@@ -1018,7 +1343,13 @@ def run_c17(ctx) -> Corr:
                 "flight, plus 1500 (thorough 15000) random longer lives with up to 8 writes; judged by the property alone "
                 "(each write returns or raises a transport error, the stream holds the lines of the successful writes "
                 "whole and in call order, disconnect returns, nothing hangs), pure-contention cases also against the "
-                "model as sequential writes. non-trivial = distinct (limit, ops, observations) with >= 2 "
+                "model as sequential writes; (e) connection attempts that take time, on an event loop with a virtual clock: every "
+                "attempt of the open function of a fresh transport (all three flavours) stays pending for 0 s .. 10**6 s (29 grid "
+                "values and log-uniform random ones) or for ever, then opens the connection or raises one of 21 OSError-family "
+                "classes or 2 others, the caller's task cancelled before connect runs / half-way / just before the answer / never; "
+                "connect must return with the opened streams installed or raise a transport error (CancelledError only for a "
+                "cancelled caller), then the connection must deliver lines and take writes, or the unconnected transport must "
+                "raise transport errors and a prompt second attempt must succeed; compared with the model's conn as well. non-trivial = distinct (limit, ops, observations) with >= 2 "
                 "chunks, or an error outcome, or a fault; for (d): overlapping writes, or a disconnect/loss in the case")
     tier = ctx.tier
     rng = lib.rng_for(ctx.seed, "c17")
@@ -1114,6 +1445,21 @@ def run_c17(ctx) -> Corr:
 
     asyncio.run(main())
 
+    # (e) connection attempts that take time: on event loops with a virtual clock (a fresh one whenever the clock
+    # has grown large, see LOOP_AGE)
+    scases = slow_connect_cases(lib.rng_for(ctx.seed, "c17-slow-connect"), tier)
+    sresults: list[tuple] = []
+
+    async def run_scases() -> None:
+        loop = asyncio.get_running_loop()
+        with Patched():
+            while len(sresults) < len(scases) and loop.time() < LOOP_AGE:
+                case, info = scases[len(sresults)]
+                sresults.append(await run_slow_connect(corr, case, {**info, "case": dict(case)}))
+
+    while len(sresults) < len(scases):
+        asyncio.run(run_scases(), loop_factory=VirtualTimeLoop)
+
     # ---- accounting (the concurrent cases first, so that two of them are among the evidence's samples)
     # concurrent cases; those that are pure contention (writes, block, release only) have a sequential reading:
     # the writes one after the other in call order, which is an operation list of the model
@@ -1146,6 +1492,35 @@ def run_c17(ctx) -> Corr:
                       "nothing hangs); only the pure-contention cases (no disconnect, no loss) are also compared with the "
                       "model, read as the same writes one after the other in call order")
 
+    for (case, info), (mlines, sobs, hist) in zip(scases, sresults):
+        delay, outcome, cancel_at = case["delay"], case["outcome"], case["cancel_at"]
+        corr.count("cases:" + info["source"])
+        corr.count("slow-connect:flavour:" + ["direct", "tcp", "serial"][case["flavour"]])
+        corr.count("slow-connect:peer-answers-after:" + ("never" if delay is None else "next-turn" if delay == 0 else
+                   "<1s" if delay < 1 else "<10s" if delay < 10 else "<1min" if delay < 60 else "<1h" if delay < 3600 else ">=1h"))
+        corr.count("slow-connect:open-function:" + ("no-answer" if delay is None else "opens" if outcome is None else
+                   "raises-OSError-family" if outcome in CONNECT_IO else "raises-other-class"))
+        if outcome is not None:
+            corr.count("slow-connect:class:" + outcome)
+        if cancel_at is not None:
+            corr.count("slow-connect:caller-cancels:" + ("before-connect-runs" if cancel_at == 0 else "while-pending"))
+        if len(sobs) > 1:
+            corr.count("slow-connect:connect-outcome:" + " ".join(sobs[1].split(" ")[:2]))
+        h = hashlib.sha1(repr((sorted(case.items(), key=str), sobs)).encode()).hexdigest()
+        show = sum(1 for x in corr.samples if "connect_history" in x) < 2 and bool(delay) and delay >= 10 and \
+            (outcome is not None or cancel_at)
+        corr.case(h, True, {**info, "case": case, "connect_history": hist, "ops": mlines, "observed": sobs} if show else None)
+    corr.notes.append("slow-connect cases (source slow-connect:*): connect() of a fresh DirectTransport / TCPTransport / "
+                      "SerialTransport on an event loop with a virtual clock, every attempt of the open function pending for "
+                      "0 s .. 10**6 s or for ever before it opens the connection or raises a class of the OSError family (21 "
+                      "classes) or one outside it, the caller cancelled before, half-way or just before the answer; judged by "
+                      "the property's oracle (connect returns with the opened reader/writer installed or raises a transport "
+                      "error, never another class, whenever and however the attempt ends; a cancelled caller sees "
+                      "CancelledError; afterwards reads/writes work, or raise transport errors and a prompt new attempt "
+                      "succeeds) AND compared with the model: the model has no time, a case is read as `conn <limit> <what the "
+                      "open function did>` (the caller's cancellation = the open function raising CancelledError) followed by "
+                      "the reads/writes/disconnect of the case")
+
     for (ops, info), obs in zip(cases, all_obs):
         src = info["source"].split(":")[0]
         corr.count(f"cases:{src}")
@@ -1162,7 +1537,16 @@ def run_c17(ctx) -> Corr:
     if ctx.model_ok:
         lines = [model_line(o) for ops, _ in cases for o in ops]
         lines += [ln for mlines, _, _ in cmodel for ln in mlines]
+        lines += [ln for mlines, _, _ in sresults for ln in mlines]
         outs = lib.run_model(lines, driver=DRIVER)
+        j = len(lines) - sum(len(mlines) for mlines, _, _ in sresults)
+        for (case, info), (mlines, sobs, hist) in zip(scases, sresults):
+            mo = outs[j:j + len(mlines)]
+            j += len(mlines)
+            corr.count("slow-connect:compared-with-model")
+            if mo != sobs:
+                corr.disagree("slow connect read as the model's conn with what the open function did",
+                              {**info, "case": case, "connect_history": hist, "model_ops": mlines, "impl": sobs, "model": mo})
         j = sum(len(ops) for ops, _ in cases)
         for mlines, want, info in cmodel:
             mo = outs[j:j + len(mlines)]
